@@ -130,7 +130,7 @@ FastRational lcm(FastRational const & a, FastRational const & b)
 {
     assert(a.isInteger() and b.isInteger());
     if (a.wordPartValid() && b.wordPartValid()) {
-        return lcm(a.num, b.num);
+        return lcm(absVal(a.num), absVal(b.num));
     }
     else {
         a.ensure_mpq_valid();
